@@ -23,8 +23,29 @@ def sparse(x):
     return {} if isinstance(x, list) and not x else x
 
 
-def tok(t, perm=False):
+def tok(t, perm=False, npm=False):
+    """Render a metadata token of the spec; npm: as numpy scalars of every kind (as they come out of arrays / tables)."""
     kind, _, body = t.partition(":")
+    if npm:
+        import numpy
+        if kind == "str":
+            return numpy.array([body])[0]                      # numpy.str_
+        if kind == "int":
+            return numpy.array([int(body)], dtype="int32" if perm else "int64")[0]
+        if kind == "float":
+            v = float(body)
+            return numpy.float32(v) if float(numpy.float32(v)) == v and not perm else numpy.float64(v)
+        if kind == "bool":
+            return numpy.array([body == "T"])[0]                # numpy.bool_
+        if kind == "list":
+            arr = numpy.array(body.split(","))
+            return arr if perm else tuple(arr)                 # an array of str_, or a tuple of numpy.str_
+        if kind == "dict":
+            items = [kv.split("=") for kv in body.split(",")]
+            if perm:
+                items = items[::-1]
+            return {k: numpy.int64(v) for k, v in items}
+        raise ValueError(t)
     if kind == "str":
         return body
     if kind == "int":
@@ -89,7 +110,7 @@ def common_kwargs(c, r):
         kw.append((k, v))
     mprops = sparse(c["material"]["props"])
     if mprops:
-        items = [("name", c["material"]["name"])] + [(k, tok(v, perm)) for k, v in mprops.items()]
+        items = [("name", c["material"]["name"])] + [(k, tok(v, perm, r.get("npm", False))) for k, v in mprops.items()]
         material = dict(items[::-1] if perm else items)
     else:
         material = c["material"]["name"]
@@ -97,7 +118,7 @@ def common_kwargs(c, r):
     kw.append(("adsorbate", ADS[c["adsorbate"]][r["alias"]]))
     t = c["temp"] / 1e6
     kw.append(("temperature", str(t) if perm else t))      # the constructor documents float or str
-    kw.extend((k, tok(v, perm)) for k, v in sparse(c["meta"]).items())
+    kw.extend((k, tok(v, perm, r.get("npm", False))) for k, v in sparse(c["meta"]).items())
     if perm:
         kw = kw[::-1]
     return dict(kw)
@@ -245,6 +266,56 @@ def read_alphabet(iso, c):
             ("eq", lambda: iso == iso), ("in_list", lambda: iso in [iso])]
 
 
+def consumer_alphabet(iso, c):
+    """Idioms that CONSUME what the isotherm hands out (to_dict, model.to_dict, data, exports, copies): read-only for the
+    isotherm.  Each returns the rebuilt isotherm when the idiom rebuilds the same content (its id is compared), else None."""
+    import os
+    import tempfile
+    from pygaps.core.baseisotherm import BaseIsotherm
+    from pygaps.core.pointisotherm import PointIsotherm
+    from pygaps.core.modelisotherm import ModelIsotherm
+    from pygaps.modelling import model_from_dict
+    cls = c["cls"]
+
+    def to_xl():
+        fd, path = tempfile.mkstemp(suffix=".xls")
+        os.close(fd)
+        try:
+            iso.to_xl(path)
+        finally:
+            if os.path.exists(path):
+                os.unlink(path)
+
+    def nothing(fn):
+        def run():
+            fn()
+            return None
+        return run
+
+    out = [("to_json", nothing(iso.to_json)), ("to_csv", nothing(iso.to_csv)), ("to_aif", nothing(iso.to_aif)), ("to_xl", nothing(to_xl)),
+           ("deepcopy", lambda: copy.deepcopy(iso)),
+           ("dict(to_dict)", nothing(lambda: dict(iso.to_dict()).clear()))]
+    if cls == "base":
+        out += [("BaseIsotherm(**to_dict)", lambda: BaseIsotherm(**iso.to_dict())),
+                ("type(iso)(**to_dict)", lambda: type(iso)(**iso.to_dict()))]
+    elif cls == "model":
+        out += [("model_from_dict(model.to_dict)", nothing(lambda: model_from_dict(iso.model.to_dict()))),
+                ("ModelIsotherm(model=model_from_dict(model.to_dict), **to_dict)",
+                 lambda: ModelIsotherm(model=model_from_dict(iso.model.to_dict()), **iso.to_dict())),
+                ("model_from_dict(dict(model.to_dict))", nothing(lambda: model_from_dict(dict(iso.model.to_dict())))),
+                ("PointIsotherm.from_modelisotherm", nothing(lambda: PointIsotherm.from_modelisotherm(iso))),
+                ("pop from model.to_dict", nothing(lambda: iso.model.to_dict().pop("name")))]
+    else:
+        out += [("PointIsotherm(**to_dict, isotherm_data=data_raw)",
+                 lambda: PointIsotherm(isotherm_data=iso.data_raw, pressure_key=iso.pressure_key, loading_key=iso.loading_key, **iso.to_dict())),
+                ("PointIsotherm(**to_dict, isotherm_data=data())",
+                 lambda: PointIsotherm(isotherm_data=iso.data(), pressure_key=iso.pressure_key, loading_key=iso.loading_key, **iso.to_dict())),
+                ("from_isotherm(iso, isotherm_data=data_raw)",
+                 lambda: type(iso).from_isotherm(iso, isotherm_data=iso.data_raw, pressure_key=iso.pressure_key, loading_key=iso.loading_key)),
+                ("ModelIsotherm.from_pointisotherm", nothing(lambda: ModelIsotherm.from_pointisotherm(iso, model="Henry")))]
+    return out
+
+
 def safe_id(iso):
     try:
         v = iso.iso_id
@@ -267,17 +338,29 @@ def build_and_id(entry):
     return iso, {"ok": ok, "id": ident, "after": ident, "reads": [], "error": ""}
 
 
-def do_reads(iso, entry, out, rng, nreads):
-    """A seeded sequence of read-only calls on the live object, then the identifier again."""
+def do_reads(iso, entry, out, rng, nreads, everything=False):
+    """A seeded sequence of read-only calls on the live object (accessors, then consumers of what it hands out),
+    then the identifier again.  everything=True: the whole alphabet."""
+    out.setdefault("clones", [])
     if iso is None or not out.get("ok"):
         return out
     alpha = read_alphabet(iso, entry["content"])
-    for name, fn in (rng.sample(alpha, min(nreads, len(alpha))) if nreads else []):
+    cons = consumer_alphabet(iso, entry["content"])
+    if everything:
+        plan = alpha + cons
+    elif nreads:
+        plan = rng.sample(alpha, min(max(nreads - 1, 1), len(alpha))) + rng.sample(cons, 2 if nreads > 3 else 1)
+    else:
+        plan = []
+    for name, fn in plan:
         try:
-            fn()
+            res = fn()
             out["reads"].append(name)
         except Exception as e:
             out["reads"].append(f"{name}!{type(e).__name__}")
+            continue
+        if res is not None and hasattr(res, "iso_id") and (name, fn) in cons:
+            out["clones"].append(safe_id(res)[1])
     out["after"] = safe_id(iso)[1]
     return out
 
@@ -292,7 +375,7 @@ class EditNotRealisable(Exception):
     """This way of editing cannot express the mutation on this object (e.g. a float into an int column)."""
 
 
-UNDOABLE = {"meta value", "label", "adsorbate", "temperature", "datum", "text cell", "branch mark",
+UNDOABLE = {"meta value", "meta value as text", "label", "adsorbate", "temperature", "datum", "text cell", "branch mark",
             "model parameter", "model range", "model rmse", "model branch"}
 EDIT_WAYS = {"datum": 4, "text cell": 4, "branch mark": 4, "meta key added": 2, "material name": 2, "material property": 2,
              "row removed": 2, "column added": 2, "model range": 2}
@@ -328,7 +411,7 @@ def edit_in_place(iso, mut, target, way):
     """Change the live object so that its content becomes `target` (a content record of the spec),
     for the spec mutation `mut`, through the `way`-th route a user has for that kind of edit."""
     kind, a, i = mut["kind"], mut["a"], mut["i"]
-    if kind == "meta value":
+    if kind in ("meta value", "meta value as text"):
         iso.properties[a] = tok(sparse(target["meta"])[a])
     elif kind == "meta key removed":
         del iso.properties[a]
